@@ -291,18 +291,34 @@ class C12(Check):
     def search(self, tier, rng, real, v):
         yield from self.batches("quick", rng, real)
 
+    @staticmethod
+    def view(real):
+        """everything a caller can observe: the graph, and the answers of the queries"""
+        out = [real.obs()]
+        for v in real.V:
+            for d, u in ((0, 2), (1, 1), (2, 0)):
+                try:
+                    out.append("nb " + ",".join(real.sv(x) for x in helpers.neighbors(v, d, u)))
+                except Exception as exc:  # noqa: BLE001
+                    out.append("nb err " + type(exc).__name__)
+            try:
+                out.append("bft " + ",".join(real.sv(x) for x in breadthfirst.bft(None, v, unknown_handling=1)))
+            except Exception as exc:  # noqa: BLE001
+                out.append("bft err " + type(exc).__name__)
+        return out
+
     def pre(self, real, line):
         if line.startswith("mut "):
-            real_obs = real.obs()
-            return real_obs
+            return self.view(real)
         return None
 
     def oracle(self, real, line, out, pre):
         if pre is None:
             return None
-        now = real.obs()
+        now = self.view(real)
         if now != pre:
-            return "%s (the caller edited a container it was given / had passed in) changed the graph: %s -> %s" % (line, pre, now)
+            d = [(a, b) for a, b in zip(pre, now) if a != b][:2]
+            return "%s (the caller edited a container it was given / had passed in) changed what is observed: %s" % (line, d)
         return None
 
 
